@@ -38,10 +38,10 @@ const BIG_CASES: u64 = 10 * 4;
 
 fn strata(t: Tier) -> Vec<Stratum> {
     vec![
-        st("generated+mutated", scale(t, 30_000, 2_000_000, 6)),
+        st("generated+mutated", scale(t, 450_000, 4_500_000, 6)),
         ex("big-counts", scale(t, BIG_CASES, BIG_CASES, 0)),
-        st("table-placement", scale(t, 4_000, 200_000, 4)),
-        st("entsize-clause", scale(t, 6_000, 300_000, 4)),
+        st("table-placement", scale(t, 60_000, 600_000, 4)),
+        st("entsize-clause", scale(t, 90_000, 900_000, 4)),
     ]
 }
 
